@@ -53,7 +53,7 @@ fn slice(tier: Tier) -> Vec<(String, PProblem)> {
         }
         out.extend(picked.into_iter().map(|p| (name.to_string(), p)));
     }
-    out.extend(family_combo(2).into_iter().step_by(tier.pick(16, 1)).map(|p| ("combo".to_string(), p)));
+    out.extend(family_combo(2).into_iter().filter(|p| p.clustering.is_none()).step_by(tier.pick(16, 1)).map(|p| ("combo".to_string(), p)));
     out
 }
 
